@@ -24,7 +24,7 @@ CONSTANTS
   WithScalar = FALSE
   WithRandom = %(rand)s
 INVARIANT BoundToName
-INVARIANT NeverHalfBound
+INVARIANT HalfBoundOnlyByPartialDicts
 INVARIANT RandomIffDistribution
 INVARIANT Dump
 PROPERTY RejectedBindsNothing
